@@ -294,7 +294,7 @@ def tasks(tier, seed):
     from ..contracts import curvesv
     ts = [(verify, (misc.BEZIER_ONCE, "heavy", "Operations.degree_increase_bezier_once", None)), (task_order, ()), (task_best_approximation, ())]
     # shape-level contracts (all curves, all arguments): degree +- t, INV, refusals atomic; degree setter dispatches to them
-    ts += [(verify, (c, m, q, v)) for c, m, q, v in curvesv.ALL if q in ("Curve.degree_increase", "Curve.degree_decrease", "BaseCurve.degree", "BaseCurve.apply")]
+    ts += curvesv.tasks_for(("Curve.degree_increase", "Curve.degree_decrease", "BaseCurve.degree", "BaseCurve.apply"))
     for sh in tier_shapes(tier):
         for variant, ks, U in con.vectors(sh, tier, seed):
             if tier == "quick" and variant == 1 and sh[0] == 3:
